@@ -258,6 +258,10 @@ func (g *G) block() {
 func (g *G) step() {
 	r := g.r
 	p := g.p
+	if !p.Isolate && ((p.Genesis && r.P(1, 10)) || r.P(1, 60)) {
+		// the chain is restarted from its own export and goes on
+		g.emit("reimport")
+	}
 	if p.Genesis && r.P(1, 6) {
 		// the round trip is also tried in mid-history, while records are pending and ballots are open
 		g.emit("genesis")
